@@ -56,6 +56,26 @@ def explore(mod_name, func_name, params, opts):
         'stub_consistency': {}, 'notes': [], 'rng_audit': [],
     }
     seen_fail = set()
+    if opts.get('concrete_only'):
+        # an instance with no symbolic content (code the engine cannot encode):
+        # the real code is run on the harness's fixed inputs; reported as such
+        cr = run_concrete(fn, params, {}, opts)
+        res['paths'] = 1
+        res['concrete_only'] = True
+        for c in cr['claims']:
+            d = res['claims'].setdefault(c['name'], {'unsat': 0, 'sat': 0, 'unknown': 0, 'concrete': 0})
+            d['concrete'] = d.get('concrete', 0) + 1
+            if not c['ok'] and c['name'] not in seen_fail:
+                seen_fail.add(c['name'])
+                res['failures'].append({'kind': 'claim', 'name': c['name'], 'values': {'_concrete_': '1'},
+                                        'detail': c.get('detail'), 'path': 'concrete'})
+        if cr['exception'] is not None:
+            res['exceptions'].append(cr['exception'])
+            res['failures'].append({'kind': 'exception', 'name': cr['exception']['type'],
+                                    'values': {'_concrete_': '1'}, 'detail': cr['exception'], 'path': 'concrete'})
+        if not res['failures'] and not cr['skipped']:
+            res['validated'] = 1
+        work = []
     while work:
         if time.time() - t0 > budget or res['paths'] >= max_paths:
             break
